@@ -422,3 +422,964 @@ Section Rowwise.
       rewrite HL, map_map. reflexivity.
   Qed.
 End Rowwise.
+
+(* ================================================================== *)
+(* 4. attention layers, decoders, Trompt: row-wise                     *)
+(* ================================================================== *)
+Section RowwiseConvs.
+  Context {R : Type} (O : Ops R).
+  Notation vec := (list R).
+  Notation mat := (list (list R)).
+  Notation t3 := (list (list (list R))).
+
+  Lemma heads_split_length : forall H d (row : mat), length (heads_split H d row) = H.
+  Proof. intros. unfold heads_split. rewrite map_length, seq_length. reflexivity. Qed.
+
+  Lemma mha_rowwise : forall H d post LinQ lq LinK lk LinV lv, 0 < H ->
+    acts_lastaxis LinQ lq -> acts_lastaxis LinK lk -> acts_lastaxis LinV lv ->
+    acts_rowwise (mha O H d post LinQ LinK LinV) (mha_row O H d post lq lk lv).
+  Proof.
+    intros H d post LinQ lq LinK lk LinV lv HH HQ HK HV X.
+    unfold mha, mha_row, reshape_heads. rewrite HQ, HK, HV.
+    rewrite <- !flat_map_concat_map, !flat_map_map'.
+    rewrite zipw_flat_map by (intros; rewrite !heads_split_length; reflexivity).
+    rewrite map_flat_map'.
+    rewrite zipw_flat_map
+      by (intros; rewrite map_length, zipw_length, !heads_split_length, Nat.min_id; reflexivity).
+    rewrite chunks_flat_map_uniform; [rewrite map_map; reflexivity | assumption |].
+    intros row. rewrite zipw_length, map_length, zipw_length, !heads_split_length, !Nat.min_id. reflexivity.
+  Qed.
+
+  Lemma tab_conv_rowwise : forall H d Norm1 norm1 LinQ lq LinK lk LinV lv LinOut lout Lin1 lin1 Lin2 lin2, 0 < H ->
+    acts_lastaxis Norm1 norm1 -> acts_lastaxis LinQ lq -> acts_lastaxis LinK lk -> acts_lastaxis LinV lv ->
+    acts_lastaxis LinOut lout -> acts_lastaxis Lin1 lin1 -> acts_lastaxis Lin2 lin2 ->
+    acts_rowwise (tab_conv O H d Norm1 LinQ LinK LinV LinOut Lin1 Lin2)
+                 (tab_conv_row O H d norm1 lq lk lv lout lin1 lin2).
+  Proof.
+    intros H d Norm1 norm1 LinQ lq LinK lk LinV lv LinOut lout Lin1 lin1 Lin2 lin2 HH HN HQ HK HV HO H1 H2 X.
+    unfold tab_conv, tab_conv_row. rewrite HN.
+    rewrite (mha_rowwise H d _ _ _ _ _ _ _ HH HQ HK HV). rewrite HO, !map_map, zipw_map, H1, !map_map, H2, !map_map.
+    apply map_ext. intros row. unfold ffn_vec. rewrite !map_map. reflexivity.
+  Qed.
+
+  Definition opt_lastaxis (F : option (t3 -> t3)) (f : option (vec -> vec)) : Prop :=
+    match F, f with
+    | Some F, Some f => acts_lastaxis F f
+    | None, None => True
+    | _, _ => False
+    end.
+
+  Lemma diam_rowwise : forall n H d LinQ lq LinK lk LinV lv LinOut lout, 0 < H ->
+    acts_lastaxis LinQ lq -> acts_lastaxis LinK lk -> acts_lastaxis LinV lv -> opt_lastaxis LinOut lout ->
+    acts_rowwise (diam O n H d LinQ LinK LinV LinOut) (diam_row O n H d lq lk lv lout).
+  Proof.
+    intros n H d LinQ lq LinK lk LinV lv LinOut lout HH HQ HK HV HO X. unfold diam, diam_row.
+    rewrite (mha_rowwise H d _ _ _ _ _ _ _ HH HQ HK HV).
+    destruct LinOut, lout; cbn in HO; try contradiction; [rewrite HO, map_map|]; reflexivity.
+  Qed.
+
+  Lemma opt_all_map_if : forall {A B} (c : A -> bool) (f : A -> B) (X : list A),
+    opt_all (map (fun x => if c x then Some (f x) else None) X) =
+    if forallb c X then Some (map f X) else None.
+  Proof.
+    induction X as [|x X IH]; [reflexivity|]. cbn [map opt_all forallb].
+    destruct (c x); [|reflexivity]. cbn [andb]. rewrite IH. destruct (forallb c X); reflexivity.
+  Qed.
+
+  (* the batch computation raises iff it raises for some row; otherwise it is the map of the row function *)
+  Lemma excel_conv_rowwise : forall n H d Norm1 norm1 LinQ lq LinK lk LinV lv LinOut lout Norm2 norm2 A1 a1 A2 a2,
+    0 < H -> acts_lastaxis Norm1 norm1 -> acts_lastaxis LinQ lq -> acts_lastaxis LinK lk -> acts_lastaxis LinV lv ->
+    opt_lastaxis LinOut lout -> acts_lastaxis Norm2 norm2 -> acts_lastaxis A1 a1 -> acts_lastaxis A2 a2 ->
+    forall X, excel_conv O n H d Norm1 LinQ LinK LinV LinOut Norm2 A1 A2 X =
+              opt_all (map (excel_conv_row O n H d norm1 lq lk lv lout norm2 a1 a2) X).
+  Proof.
+    intros n H d Norm1 norm1 LinQ lq LinK lk LinV lv LinOut lout Norm2 norm2 A1 a1 A2 a2
+           HH HN HQ HK HV HO HN2 HA1 HA2 X.
+    unfold excel_conv, excel_conv_row.
+    rewrite (opt_all_map_if (fun row => length row =? n)).
+    destruct (forallb _ X); [|reflexivity]. f_equal.
+    rewrite HN, (diam_rowwise n H d _ _ _ _ _ _ _ _ HH HQ HK HV HO), !map_map, zipw_map.
+    rewrite HN2, HA1, HA2, !map_map, zipw_map, zipw_map.
+    apply map_ext. intros row. unfold excel_conv_core_row, aium_vec.
+    rewrite !map_map, zipw_map. reflexivity.
+  Qed.
+
+  Lemma excel_decoder_rowwise : forall Cin Cout LinF lin_f LinD lin_d,
+    acts_lastaxis LinF lin_f -> acts_lastaxis LinD lin_d ->
+    acts_rowwise (excel_decoder O Cin Cout LinF LinD) (excel_decoder_row O Cin Cout lin_f lin_d).
+  Proof.
+    intros Cin Cout LinF lin_f LinD lin_d HF HD X. unfold excel_decoder, excel_decoder_row.
+    rewrite HF, !map_map, HD, !map_map. apply map_ext. intros row. rewrite !map_map. reflexivity.
+  Qed.
+
+  (* ---------- FT-Transformer convs ---------- *)
+  Lemma split_first_rowwise : forall (g : mat -> mat) (X : t3),
+    match opt_all (map (fun row => nth_error (g row) 0) X) with
+    | Some c => Some (map (fun row => skipn 1 (g row)) X, c)
+    | None => None
+    end =
+    option_map (fun l => (map fst l, map snd l))
+      (opt_all (map (fun row => match nth_error (g row) 0 with
+                                | Some c => Some (skipn 1 (g row), c)
+                                | None => None
+                                end) X)).
+  Proof.
+    intros g X. induction X as [|x X IH]; [reflexivity|].
+    cbn [map opt_all]. destruct (nth_error (g x) 0) as [c|]; [|reflexivity].
+    destruct (opt_all (map (fun row => nth_error (g row) 0) X)) as [cs|];
+      destruct (opt_all (map _ X)) as [l|]; cbn [option_map] in IH |- *; try discriminate; [|reflexivity].
+    assert (E1 : map (fun row => skipn 1 (g row)) X = map fst l) by congruence.
+    assert (E2 : cs = map snd l) by congruence.
+    cbn [map fst snd]. rewrite E1, E2. reflexivity.
+  Qed.
+
+  Lemma ft_convs_rowwise : forall (cls : vec) (TE : t3 -> t3) te_r, acts_rowwise TE te_r ->
+    forall X, ft_convs cls TE X =
+              option_map (fun l => (map fst l, map snd l)) (opt_all (map (ft_convs_row cls te_r) X)).
+  Proof.
+    intros cls TE te_r HT X. unfold ft_convs. cbv zeta.
+    rewrite zipw_repeat_l by lia. rewrite (HT _), !map_map.
+    exact (split_first_rowwise (fun row => te_r (cls :: row)) X).
+  Qed.
+End RowwiseConvs.
+
+(* ================================================================== *)
+(* 5. option plumbing and the remaining models                         *)
+(* ================================================================== *)
+Definition unwrap {A} (d : A) (o : option A) : A := match o with Some x => x | None => d end.
+
+Lemma opt_all_option_map : forall {A B C} (h : B -> C) (F : A -> option B) (X : list A),
+  opt_all (map (fun a => option_map h (F a)) X) = option_map (map h) (opt_all (map F X)).
+Proof.
+  induction X as [|x X IH]; [reflexivity|]. cbn [map opt_all].
+  destruct (F x); cbn [option_map]; [|reflexivity]. rewrite IH. destruct (opt_all (map F X)); reflexivity.
+Qed.
+
+Lemma opt_all_Some_inv : forall {A B} (d : B) (F : A -> option B) (X : list A) Y,
+  opt_all (map F X) = Some Y ->
+  Y = map (fun a => unwrap d (F a)) X /\ (forall a, In a X -> F a = Some (unwrap d (F a))).
+Proof.
+  induction X as [|x X IH]; intros Y H; cbn [map opt_all] in H.
+  - inversion H. split; [reflexivity | intros a []].
+  - destruct (F x) as [y|] eqn:E; [|discriminate].
+    destruct (opt_all (map F X)) as [Y'|] eqn:E'; [|discriminate]. inversion H; subst.
+    destruct (IH Y' eq_refl) as [IH1 IH2]. split.
+    + cbn [map]. rewrite E. cbn. f_equal. exact IH1.
+    + intros a [<-|Ha]; [rewrite E; reflexivity | apply IH2; assumption].
+Qed.
+
+Lemma opt_all_None_inv : forall {A B} (F : A -> option B) (X : list A),
+  opt_all (map F X) = None -> exists a, In a X /\ F a = None.
+Proof.
+  induction X as [|x X IH]; intros H; cbn [map opt_all] in H; [discriminate|].
+  destruct (F x) eqn:E.
+  - destruct (opt_all (map F X)) eqn:E'; [discriminate|].
+    destruct (IH eq_refl) as (a & Ha & Fa). exists a. split; [right|]; assumption.
+  - exists x. split; [left; reflexivity | assumption].
+Qed.
+
+Lemma opt_all_None_intro : forall {A B} (G : A -> option B) (X : list A) a,
+  In a X -> G a = None -> opt_all (map G X) = None.
+Proof.
+  induction X as [|x X IH]; intros a Ha Ga; [destruct Ha|]. cbn [map opt_all].
+  destruct Ha as [<-|Ha]; [rewrite Ga; reflexivity|].
+  destruct (G x); [|reflexivity]. rewrite (IH a Ha Ga). reflexivity.
+Qed.
+
+(* sequencing a row-wise partial step F with a row-wise continuation *)
+Lemma opt_all_bind : forall {A B C} (d : B) (F : A -> option B) (K : A -> B -> option C) (X : list A),
+  opt_all (map (fun a => match F a with Some y => K a y | None => None end) X) =
+  match opt_all (map F X) with
+  | Some _ => opt_all (map (fun a => K a (unwrap d (F a))) X)
+  | None => None
+  end.
+Proof.
+  intros A B C d F K X. destruct (opt_all (map F X)) as [Y|] eqn:E.
+  - destruct (opt_all_Some_inv d F X Y E) as [_ H]. apply opt_all_map_ext. intros a Ha.
+    rewrite (H a Ha) at 1. reflexivity.
+  - destruct (opt_all_None_inv F X E) as (a & Ha & Fa).
+    apply (opt_all_None_intro _ X a Ha). rewrite Fa. reflexivity.
+Qed.
+
+Lemma zipw_map2 : forall {A B C D E} (h : C -> D -> E) (f : A -> C) (g : B -> D) (X : list A) (Y : list B),
+  zipw h (map f X) (map g Y) = zipw (fun x y => h (f x) (g y)) X Y.
+Proof.
+  induction X as [|x X IH]; intros Y; [reflexivity|]. destruct Y as [|y Y]; [reflexivity|].
+  cbn [map]. rewrite !zipw_cons, IH. reflexivity.
+Qed.
+
+Lemma zipw_flip_ext : forall {A B C} (h1 : B -> A -> C) (h2 : A -> B -> C) (X : list A) (Y : list B),
+  (forall x y, h1 y x = h2 x y) -> zipw h1 Y X = zipw h2 X Y.
+Proof.
+  intros A B C h1 h2 X Y H. revert Y. induction X as [|x X IH]; intros [|y Y]; try reflexivity.
+  rewrite !zipw_cons, IH, H. reflexivity.
+Qed.
+
+Lemma zipw_same : forall {A C} (h : A -> A -> C) (X : list A), zipw h X X = map (fun x => h x x) X.
+Proof. induction X as [|x X IH]; [reflexivity|]. rewrite zipw_cons, IH. reflexivity. Qed.
+
+Section RowwiseModels.
+  Context {R : Type} (O : Ops R).
+  Notation vec := (list R).
+  Notation mat := (list (list R)).
+  Notation t3 := (list (list (list R))).
+
+  (* a partial batch-level block: raises iff it raises on some row *)
+  Definition acts_rowwise_opt {U T : Type} (F : list U -> option (list T)) (f : U -> option T) : Prop :=
+    forall X, F X = opt_all (map f X).
+
+  (* ---------- FT-Transformer ---------- *)
+  Lemma ft_rowwise : forall {A} (Enc : list A -> t3) enc_r (cls : vec) TE te_r Dec dec_r,
+    acts_rowwise Enc enc_r -> acts_rowwise TE te_r -> acts_rowwise Dec dec_r ->
+    acts_rowwise_opt (ft_forward Enc cls TE Dec) (ft_row enc_r cls te_r dec_r).
+  Proof.
+    intros A Enc enc_r cls TE te_r Dec dec_r HE HT HD X. unfold ft_forward, ft_row.
+    rewrite HE, (ft_convs_rowwise cls TE te_r HT), map_map.
+    rewrite (opt_all_map_ext _ (fun a => option_map (fun p => dec_r (snd p)) (ft_convs_row cls te_r (enc_r a))))
+      by (intros a _; destruct (ft_convs_row cls te_r (enc_r a)) as [[? ?]|]; reflexivity).
+    rewrite opt_all_option_map.
+    destruct (opt_all (map (fun a => ft_convs_row cls te_r (enc_r a)) X)) as [l|]; cbn [option_map]; [|reflexivity].
+    rewrite HD, map_map. reflexivity.
+  Qed.
+
+  (* ---------- TabTransformer ---------- *)
+  Lemma tabt_rowwise : forall {A} has_cat has_num (CatEnc : list A -> t3) cat_enc_r (pad : mat) Convs convs_r
+                              NumEnc num_enc_r NumNorm num_norm_r Dec dec_r,
+    has_cat || has_num = true ->
+    acts_rowwise CatEnc cat_enc_r -> Forall2 acts_rowwise Convs convs_r ->
+    acts_rowwise NumEnc num_enc_r -> acts_rowwise NumNorm num_norm_r -> acts_rowwise Dec dec_r ->
+    acts_rowwise_opt (tabt_forward has_cat has_num CatEnc pad Convs NumEnc NumNorm Dec)
+                     (tabt_row has_cat has_num cat_enc_r pad convs_r num_enc_r num_norm_r dec_r).
+  Proof.
+    intros A hc hn CatEnc cat_enc_r pad Convs convs_r NumEnc num_enc_r NumNorm num_norm_r Dec dec_r
+           Hb HC HCv HN HNn HD X.
+    unfold tabt_forward, tabt_row.
+    assert (Ecat : map (@concat R) (sequential Convs (zipw (zipw (@app R)) (CatEnc X) (repeat pad (length X)))) =
+                   map (fun a => concat (sequential convs_r (zipw (@app R) (cat_enc_r a) pad))) X).
+    { rewrite HC, zipw_repeat_r by (rewrite map_length; lia).
+      rewrite (sequential_rowwise _ _ HCv), !map_map. reflexivity. }
+    assert (Enum : NumNorm (map (@concat R) (NumEnc X)) = map (fun a => num_norm_r (concat (num_enc_r a))) X).
+    { rewrite HN, HNn, !map_map. reflexivity. }
+    destruct hc, hn; try discriminate; cbn [app fold_left]; cbv zeta.
+    - rewrite Ecat, Enum, zipw_map, HD, map_map, opt_all_map_Some. reflexivity.
+    - rewrite Ecat, HD, map_map, opt_all_map_Some. reflexivity.
+    - rewrite Enum, HD, map_map, opt_all_map_Some. reflexivity.
+  Qed.
+
+  (* ---------- TabNet, restated ---------- *)
+  Lemma tabnet_rowwise_opt : forall {A} (Enc : list A -> t3) enc_r Bn0 bn0 Ft0 ft0 split vbs Steps steps Lin lin,
+    0 < vbs -> steps <> [] -> acts_rowwise Enc enc_r -> acts_rowwise Bn0 bn0 -> acts_rowwise Ft0 ft0 ->
+    Forall2 (step_rowwise (R := R)) Steps steps -> acts_rowwise Lin lin ->
+    acts_rowwise_opt (tabnet_forward O Enc Bn0 Ft0 split vbs Steps Lin) (tabnet_row O enc_r bn0 ft0 split steps lin).
+  Proof.
+    intros A Enc enc_r Bn0 bn0 Ft0 ft0 split vbs Steps steps Lin lin Hv Hne HE HB HF HS HL X.
+    rewrite (tabnet_rowwise O Enc enc_r Bn0 bn0 Ft0 ft0 split vbs Steps steps Lin lin Hv HE HB HF HS HL X).
+    destruct steps as [|[[l b] f] steps]; [congruence|].
+    rewrite <- opt_all_map_Some. apply opt_all_map_ext. intros a _.
+    unfold tabnet_row. cbn [tabnet_loop_row]. reflexivity.
+  Qed.
+
+  (* ---------- ExcelFormer ---------- *)
+  Lemma opt_seq_rowwise : forall (Fs : list (t3 -> option t3)) (fs : list (mat -> option mat)),
+    Forall2 acts_rowwise_opt Fs fs -> acts_rowwise_opt (opt_seq Fs) (opt_seq fs).
+  Proof.
+    intros Fs fs H. induction H as [|F f Fs fs HF _ IH]; intros X.
+    - cbn [opt_seq]. rewrite opt_all_map_Some, map_id. reflexivity.
+    - cbn [opt_seq]. rewrite HF.
+      rewrite (opt_all_bind (@nil (list R)) f (fun _ y => opt_seq fs y) X).
+      destruct (opt_all (map f X)) as [Y|] eqn:E; [|reflexivity].
+      destruct (opt_all_Some_inv (@nil (list R)) f X Y E) as [-> _].
+      rewrite IH, map_map. reflexivity.
+  Qed.
+
+  Lemma excel_rowwise : forall {A} (Enc : list A -> t3) enc_r Convs convs_r Dec dec_r,
+    acts_rowwise Enc enc_r -> Forall2 acts_rowwise_opt Convs convs_r -> acts_rowwise Dec dec_r ->
+    acts_rowwise_opt (excel_forward Enc Convs Dec) (excel_row enc_r convs_r dec_r).
+  Proof.
+    intros A Enc enc_r Convs convs_r Dec dec_r HE HC HD X. unfold excel_forward, excel_row.
+    rewrite HE, (opt_seq_rowwise _ _ HC), map_map.
+    rewrite (opt_all_map_ext _ (fun a => option_map dec_r (opt_seq convs_r (enc_r a))))
+      by (intros a _; destruct (opt_seq convs_r (enc_r a)); reflexivity).
+    rewrite opt_all_option_map.
+    destruct (opt_all _); cbn [option_map]; [rewrite HD|]; reflexivity.
+  Qed.
+End RowwiseModels.
+
+(* ================================================================== *)
+(* 6. Trompt                                                           *)
+(* ================================================================== *)
+Section Trompt.
+  Context {R : Type} (O : Ops R).
+  Notation vec := (list R).
+  Notation mat := (list (list R)).
+  Notation t3 := (list (list (list R))).
+
+  Lemma opt_all_zipw_guard : forall {A B C} (c1 : A -> bool) (c2 : B -> bool) (h : A -> B -> C) (X : list A) (Y : list B),
+    length Y = length X ->
+    opt_all (zipw (fun x y => if negb (c1 x) then None else if negb (c2 y) then None else Some (h x y)) X Y) =
+    if negb (forallb c1 X) then None else if negb (forallb c2 Y) then None else Some (zipw h X Y).
+  Proof.
+    induction X as [|x X IH]; intros [|y Y] Hl; try discriminate; [reflexivity|].
+    rewrite !zipw_cons. cbn [opt_all forallb]. injection Hl as Hl. rewrite (IH Y Hl).
+    destruct (c1 x), (c2 y), (forallb c1 X), (forallb c2 Y); reflexivity.
+  Qed.
+
+  (* the conv treats the batch as a zip of (row of x, row of x_prompt); a batch-size mismatch is rejected *)
+  Definition trompt_conv_rowwise_stmt (Conv : t3 -> t3 -> option t3) (conv : mat -> mat -> option mat) : Prop :=
+    forall X Xp, Conv X Xp = if length Xp =? length X then opt_all (zipw conv X Xp) else None.
+
+  Lemma trompt_conv_rowwise : forall n C P (ep ec : mat) (w : vec) Lin lin (GN : list t3 -> list t3) gn_r,
+    acts_lastaxis Lin lin -> acts_rowwise GN gn_r ->
+    trompt_conv_rowwise_stmt (trompt_conv O n C P ep ec w Lin GN) (trompt_conv_row O n C P ep ec w lin gn_r).
+  Proof.
+    intros n C P ep ec w Lin lin GN gn_r HL HG X Xp. unfold trompt_conv, trompt_conv_row.
+    destruct (length Xp =? length X) eqn:El.
+    - apply Nat.eqb_eq in El. rewrite (opt_all_zipw_guard (shape2_ok n C) (shape2_ok P C) _ X Xp El).
+      unfold shape3_ok. cbn [andb].
+      destruct (negb (forallb (shape2_ok n C) X)); [reflexivity|].
+      destruct (negb (forallb (shape2_ok P C) Xp)); [reflexivity|]. f_equal.
+      rewrite !zipw_repeat_l by lia.
+      rewrite HL, !map_map, zipw_map.
+      rewrite zipw_repeat_r by (rewrite map_length; lia). rewrite !map_map.
+      rewrite HG, !map_map, zipw_map.
+      rewrite zipw_map2.
+      apply zipw_flip_ext. intros x y. rewrite map_map. reflexivity.
+    - cbn [andb]. destruct (negb (shape3_ok n C X)); reflexivity.
+  Qed.
+
+  Lemma trompt_decoder_rowwise : forall P C LinAttn lin_attn Mlp mlp,
+    acts_lastaxis LinAttn lin_attn -> acts_rowwise Mlp mlp ->
+    acts_rowwise_opt (trompt_decoder O P C LinAttn Mlp) (trompt_decoder_row O P C lin_attn mlp).
+  Proof.
+    intros P C LinAttn lin_attn Mlp mlp HL HM X. unfold trompt_decoder, trompt_decoder_row.
+    rewrite (opt_all_map_ext _ (fun x => if shape2_ok P C x
+                                         then Some (mlp (lincomb O C (softmax O (concat (map lin_attn x))) x)) else None))
+      by (intros x _; destruct (shape2_ok P C x); reflexivity).
+    rewrite opt_all_map_if. unfold shape3_ok. destruct (forallb (shape2_ok P C) X); cbn [negb]; [|reflexivity].
+    rewrite HL, map_map, zipw_map_r, HM, map_map. reflexivity.
+  Qed.
+
+  (* ---------- the model ---------- *)
+  Definition trompt_layer_rowwise {A} (L : (list A -> t3) * (t3 -> t3 -> option t3))
+             (l : (A -> mat) * (mat -> mat -> option mat)) : Prop :=
+    acts_rowwise (fst L) (fst l) /\ trompt_conv_rowwise_stmt (snd L) (snd l).
+
+  Lemma trompt_loop_rowwise : forall {A} layers layers_r (Dec : t3 -> option mat) dec,
+    Forall2 (@trompt_layer_rowwise A) layers layers_r -> acts_rowwise_opt Dec dec ->
+    forall (xpf : A -> mat) (g0 : A -> mat) (X : list A),
+      match trompt_loop layers Dec X (map xpf X) with
+      | Some outs => Some (fold_left (zipw (@app vec)) outs (map g0 X))
+      | None => None
+      end =
+      opt_all (map (fun a => match trompt_loop_row layers_r dec a (xpf a) with
+                             | Some outs => Some (fold_left (@app vec) outs (g0 a))
+                             | None => None
+                             end) X).
+  Proof.
+    intros A layers layers_r Dec dec H HD. induction H as [|L l layers layers_r HL _ IH]; intros xpf g0 X.
+    - cbn [trompt_loop trompt_loop_row fold_left]. rewrite opt_all_map_Some. reflexivity.
+    - destruct L as [Enc Conv], l as [enc conv]. destruct HL as [HE HC]. cbn [fst snd] in HE, HC.
+      cbn [trompt_loop trompt_loop_row].
+      rewrite HE, HC, !map_length, Nat.eqb_refl, zipw_map.
+      (* row side: sequence conv, then dec, then the rest *)
+      pose (K1 := fun (a : A) (xp' : mat) =>
+                    match dec xp' with
+                    | Some out => match trompt_loop_row layers_r dec a xp' with
+                                  | Some outs => Some (fold_left (@app vec) ([out] :: outs) (g0 a))
+                                  | None => None
+                                  end
+                    | None => None
+                    end).
+      transitivity (opt_all (map (fun a => match conv (enc a) (xpf a) with Some y => K1 a y | None => None end) X));
+        [| apply opt_all_map_ext; intros a _; unfold K1; destruct (conv (enc a) (xpf a)) as [y|]; [|reflexivity];
+            destruct (dec y); [|reflexivity]; destruct (trompt_loop_row layers_r dec a y); reflexivity].
+      rewrite (opt_all_bind (@nil (list R)) (fun a => conv (enc a) (xpf a)) K1 X). unfold K1. clear K1.
+      destruct (opt_all (map (fun a => conv (enc a) (xpf a)) X)) as [XP|] eqn:E1; [|reflexivity].
+      destruct (opt_all_Some_inv (@nil (list R)) _ X XP E1) as [-> _].
+      set (xpf' := fun a => unwrap [] (conv (enc a) (xpf a))).
+      rewrite HD, map_map.
+      pose (K2 := fun (a : A) (out : vec) =>
+                    match trompt_loop_row layers_r dec a (xpf' a) with
+                    | Some outs => Some (fold_left (@app vec) ([out] :: outs) (g0 a))
+                    | None => None
+                    end).
+      transitivity (opt_all (map (fun a => match dec (xpf' a) with Some y => K2 a y | None => None end) X));
+        [| apply opt_all_map_ext; intros a _; reflexivity].
+      rewrite (opt_all_bind (@nil R) (fun a => dec (xpf' a)) K2 X). unfold K2. clear K2.
+      destruct (opt_all (map (fun a => dec (xpf' a)) X)) as [OUT|] eqn:E2; [|reflexivity].
+      destruct (opt_all_Some_inv (@nil R) _ X OUT E2) as [-> _].
+      specialize (IH xpf' (fun a => g0 a ++ [unwrap [] (dec (xpf' a))]) X).
+      cbn [fold_left]. rewrite <- IH.
+      destruct (trompt_loop layers Dec X (map xpf' X)) as [outs|]; [|reflexivity].
+      cbn [fold_left]. rewrite map_map, zipw_map. reflexivity.
+  Qed.
+
+  Lemma trompt_rowwise : forall {A} (prompt : mat) layers layers_r (Dec : t3 -> option mat) dec,
+    layers_r <> [] ->
+    Forall2 (@trompt_layer_rowwise A) layers layers_r -> acts_rowwise_opt Dec dec ->
+    acts_rowwise_opt (trompt_forward prompt layers Dec) (trompt_row prompt layers_r dec).
+  Proof.
+    intros A prompt layers layers_r Dec dec Hne H HD X. unfold trompt_forward, trompt_row.
+    destruct H as [|L l layers layers_r HL H]; [congruence|].
+    destruct L as [Enc Conv], l as [enc conv]. destruct HL as [HE HC]. cbn [fst snd] in HE, HC.
+    replace (repeat prompt (length X)) with (map (fun _ : A => prompt) X)
+      by (induction X; cbn; congruence).
+    cbn [trompt_loop trompt_loop_row].
+    rewrite HE, HC, !map_length, Nat.eqb_refl, zipw_map.
+    pose (K1 := fun (a : A) (xp' : mat) =>
+                  match dec xp' with
+                  | Some out => match trompt_loop_row layers_r dec a xp' with
+                                | Some outs => Some (fold_left (@app vec) outs [out])
+                                | None => None
+                                end
+                  | None => None
+                  end).
+    transitivity (opt_all (map (fun a => match conv (enc a) prompt with Some y => K1 a y | None => None end) X));
+        [| apply opt_all_map_ext; intros a _; unfold K1; destruct (conv (enc a) prompt) as [y|]; [|reflexivity];
+          destruct (dec y); [|reflexivity]; destruct (trompt_loop_row layers_r dec a y); reflexivity].
+    rewrite (opt_all_bind (@nil (list R)) (fun a => conv (enc a) prompt) K1 X). unfold K1. clear K1.
+    destruct (opt_all (map (fun a => conv (enc a) prompt) X)) as [XP|] eqn:E1; [|reflexivity].
+    destruct (opt_all_Some_inv (@nil (list R)) _ X XP E1) as [-> _].
+    set (xpf' := fun a => unwrap [] (conv (enc a) prompt)).
+    rewrite HD, map_map.
+    pose (K2 := fun (a : A) (out : vec) =>
+                  match trompt_loop_row layers_r dec a (xpf' a) with
+                  | Some outs => Some (fold_left (@app vec) outs [out])
+                  | None => None
+                  end).
+    transitivity (opt_all (map (fun a => match dec (xpf' a) with Some y => K2 a y | None => None end) X));
+        [| apply opt_all_map_ext; intros a _; reflexivity].
+    rewrite (opt_all_bind (@nil R) (fun a => dec (xpf' a)) K2 X). unfold K2. clear K2.
+    destruct (opt_all (map (fun a => dec (xpf' a)) X)) as [OUT|] eqn:E2; [|reflexivity].
+    destruct (opt_all_Some_inv (@nil R) _ X OUT E2) as [-> _].
+    pose proof (trompt_loop_rowwise layers layers_r Dec dec H HD xpf' (fun a => [unwrap [] (dec (xpf' a))]) X) as IH.
+    rewrite map_map.
+    destruct (trompt_loop layers Dec X (map xpf' X)) as [outs|].
+    - rewrite IH. apply opt_all_map_ext. intros a _.
+      destruct (trompt_loop_row layers_r dec a (xpf' a)); reflexivity.
+    - rewrite IH. apply opt_all_map_ext. intros a _.
+      destruct (trompt_loop_row layers_r dec a (xpf' a)); reflexivity.
+  Qed.
+End Trompt.
+
+(* ================================================================== *)
+(* 7. column form of multi-head attention; permutation equivariance    *)
+(* ================================================================== *)
+Section Equivariance.
+  Context {R : Type} (O : Ops R).
+  Notation vec := (list R).
+  Notation mat := (list (list R)).
+  Notation t3 := (list (list (list R))).
+
+  (* merging the heads = concatenating, per column, the head outputs *)
+  Lemma heads_merge_map : forall {A} (F : nat -> A -> vec) (row : list A) hs, hs <> [] ->
+    heads_merge (map (fun h => map (F h) row) hs) = map (fun x => flat_map (fun h => F h x) hs) row.
+  Proof.
+    intros A F row hs. induction hs as [|h hs IH]; intros Hne; [congruence|].
+    destruct hs as [|h' hs].
+    - cbn. apply map_ext. intros x. rewrite app_nil_r. reflexivity.
+    - change (heads_merge (map (fun h0 => map (F h0) row) (h :: h' :: hs)))
+        with (zipw (@app R) (map (F h) row) (heads_merge (map (fun h0 => map (F h0) row) (h' :: hs)))).
+      rewrite IH by congruence. rewrite zipw_map. reflexivity.
+  Qed.
+
+  Lemma seq_nonempty : forall H, 0 < H -> seq 0 H <> [].
+  Proof. intros [|H] Hp; [lia|]. discriminate. Qed.
+
+  (* SelfAttention of TabTransformerConv, column by column *)
+  Lemma tab_mha_colform : forall H d lq lk lv (xs : mat), 0 < H ->
+    mha_row O H d (tab_post O) lq lk lv xs =
+    map (fun xj => flat_map (fun h => tab_head_out O d lq lk lv h xj xs) (seq 0 H)) xs.
+  Proof.
+    intros H d lq lk lv xs HH. unfold mha_row, heads_split.
+    rewrite zipw_map, map_map, zipw_map.
+    transitivity (heads_merge (map (fun h => map (fun xj => tab_head_out O d lq lk lv h xj xs) xs) (seq 0 H))).
+    - f_equal. apply map_ext. intros h. unfold tab_post, tab_head_out, head_slice, vfn. rewrite !map_map.
+      apply map_ext. intros xj. rewrite !map_map. reflexivity.
+    - apply (heads_merge_map (fun h xj => tab_head_out O d lq lk lv h xj xs)).
+      apply seq_nonempty; assumption.
+  Qed.
+
+  Lemma tab_conv_colform : forall H d norm1 lq lk lv lout lin1 lin2 (row : mat), 0 < H ->
+    tab_conv_row O H d norm1 lq lk lv lout lin1 lin2 row =
+    map (fun xj => tab_conv_col O H d lq lk lv lout lin1 lin2 xj (map norm1 row)) (map norm1 row).
+  Proof.
+    intros H d norm1 lq lk lv lout lin1 lin2 row HH. unfold tab_conv_row.
+    rewrite tab_mha_colform by assumption. rewrite map_map, zipw_map_l, map_map. reflexivity.
+  Qed.
+
+  (* a layer of the form  out[j] = G(x_j, {all columns})  with G blind to the order of the columns
+     commutes with every re-ordering of the columns *)
+  Lemma colform_equivariant : forall (G : vec -> mat -> vec),
+    (forall x xs xs', Permutation xs xs' -> G x xs = G x xs') ->
+    forall p (row : mat), is_perm p (length row) ->
+      map (fun x => G x (take_cols p row)) (take_cols p row) = take_cols p (map (fun x => G x row) row).
+  Proof.
+    intros G HG p row Hp. rewrite take_cols_map. apply map_ext. intros x.
+    apply HG. apply take_cols_perm. assumption.
+  Qed.
+
+  Section WithLaws.
+    Hypothesis add_comm : forall a b, oadd O a b = oadd O b a.
+    Hypothesis add_assoc : forall a b c, oadd O a (oadd O b c) = oadd O (oadd O a b) c.
+
+    Lemma tab_head_out_perm : forall d lq lk lv h xj xs xs', Permutation xs xs' ->
+      tab_head_out O d lq lk lv h xj xs = tab_head_out O d lq lk lv h xj xs'.
+    Proof.
+      intros d lq lk lv h xj xs xs' HP. unfold tab_head_out, vfn. rewrite !map_map.
+      apply (attn_agg_perm O add_comm add_assoc d (ofn O FScale)
+               (fun xl => dot O (head_slice d h (lq xj)) (head_slice d h (lk xl)))
+               (fun xl => head_slice d h (lv xl)) xs xs' HP).
+    Qed.
+
+    Lemma tab_conv_col_perm : forall H d lq lk lv lout lin1 lin2 xj xs xs', Permutation xs xs' ->
+      tab_conv_col O H d lq lk lv lout lin1 lin2 xj xs = tab_conv_col O H d lq lk lv lout lin1 lin2 xj xs'.
+    Proof.
+      intros. unfold tab_conv_col. do 3 f_equal. apply flat_map_ext'. intros h _.
+      apply tab_head_out_perm. assumption.
+    Qed.
+
+    Theorem tab_conv_row_equivariant : forall H d norm1 lq lk lv lout lin1 lin2 p (row : mat),
+      0 < H -> is_perm p (length row) ->
+      tab_conv_row O H d norm1 lq lk lv lout lin1 lin2 (take_cols p row) =
+      take_cols p (tab_conv_row O H d norm1 lq lk lv lout lin1 lin2 row).
+    Proof.
+      intros H d norm1 lq lk lv lout lin1 lin2 p row HH Hp.
+      rewrite (tab_conv_colform H d norm1 lq lk lv lout lin1 lin2 row HH).
+      rewrite (tab_conv_colform H d norm1 lq lk lv lout lin1 lin2 (take_cols p row) HH).
+      rewrite <- (take_cols_map norm1 p row).
+      refine (colform_equivariant (fun x xs => tab_conv_col O H d lq lk lv lout lin1 lin2 x xs) _ p (map norm1 row) _).
+      - intros. apply tab_conv_col_perm. assumption.
+      - rewrite map_length. assumption.
+    Qed.
+  End WithLaws.
+
+  (* ---------- FT-Transformer: CLS slot fixed, the other tokens permuted ---------- *)
+  Lemma take_cols_cons_shift : forall {A} (c : A) p (row : list A),
+    take_cols (0 :: map S p) (c :: row) = c :: take_cols p row.
+  Proof.
+    intros. unfold take_cols. cbn [flat_map nth_error app]. f_equal. rewrite flat_map_map'. reflexivity.
+  Qed.
+
+  Lemma is_perm_cons_shift : forall p n, is_perm p n -> is_perm (0 :: map S p) (S n).
+  Proof.
+    intros p n H. unfold is_perm in *. cbn [seq]. apply perm_skip. rewrite <- seq_shift.
+    apply Permutation_map. assumption.
+  Qed.
+
+  Theorem ft_convs_row_equivariant : forall (cls : vec) (te_r : mat -> mat),
+    (forall toks, length (te_r toks) = length toks) ->
+    (forall q toks, is_perm q (length toks) -> te_r (take_cols q toks) = take_cols q (te_r toks)) ->
+    forall p (row y : mat) c, is_perm p (length row) ->
+      ft_convs_row cls te_r row = Some (y, c) ->
+      ft_convs_row cls te_r (take_cols p row) = Some (take_cols p y, c).
+  Proof.
+    intros cls te_r Hlen Heq p row y c Hp H. unfold ft_convs_row in *.
+    rewrite <- take_cols_cons_shift.
+    rewrite Heq by (cbn [length]; apply is_perm_cons_shift; assumption).
+    destruct (te_r (cls :: row)) as [|c0 y0] eqn:E; cbn [nth_error] in H; [discriminate|].
+    cbn [skipn] in H. inversion H; subst. rewrite take_cols_cons_shift. reflexivity.
+  Qed.
+
+  (* the CLS read-out never fails when the encoder keeps the token count *)
+  Lemma ft_convs_row_total : forall (cls : vec) (te_r : mat -> mat) row,
+    (forall toks, length (te_r toks) = length toks) -> exists y c, ft_convs_row cls te_r row = Some (y, c).
+  Proof.
+    intros cls te_r row Hlen. unfold ft_convs_row. specialize (Hlen (cls :: row)).
+    destruct (te_r (cls :: row)) as [|c y]; [discriminate|]. exists y, c. reflexivity.
+  Qed.
+End Equivariance.
+
+(* ================================================================== *)
+(* 8. ExcelFormerConv: causality from the DiaM mask                    *)
+(* ================================================================== *)
+Lemma nth_error_zipw : forall {A B C} (h : A -> B -> C) a b i,
+  nth_error (zipw h a b) i =
+  match nth_error a i, nth_error b i with Some u, Some v => Some (h u v) | _, _ => None end.
+Proof.
+  induction a as [|x a IH]; intros [|y b] [|i]; try reflexivity.
+  - cbn. destruct (nth_error a i); reflexivity.
+  - rewrite zipw_cons. cbn [nth_error]. apply IH.
+Qed.
+
+Lemma nth_error_firstn' : forall {A} (l : list A) n i, i < n -> nth_error (firstn n l) i = nth_error l i.
+Proof.
+  induction l as [|x l IH]; intros [|n] [|i] H; try reflexivity; try lia.
+  cbn [firstn nth_error]. apply IH. lia.
+Qed.
+
+Lemma nth_error_seq' : forall n s i, i < n -> nth_error (seq s n) i = Some (s + i).
+Proof.
+  induction n as [|n IH]; intros s [|i] H; try lia; cbn [seq nth_error].
+  - f_equal. lia.
+  - rewrite IH by lia. f_equal. lia.
+Qed.
+
+Lemma nth_error_combine' : forall {A B} (a : list A) (b : list B) i,
+  nth_error (combine a b) i =
+  match nth_error a i, nth_error b i with Some u, Some v => Some (u, v) | _, _ => None end.
+Proof.
+  induction a as [|x a IH]; intros [|y b] [|i]; try reflexivity.
+  - cbn. destruct (nth_error a i); reflexivity.
+  - cbn [combine nth_error]. apply IH.
+Qed.
+
+Lemma map_const_in : forall {A B} (f : A -> B) c (l : list A), (forall x, In x l -> f x = c) -> map f l = repeat c (length l).
+Proof.
+  induction l as [|x l IH]; intros H; [reflexivity|]. cbn [map length repeat].
+  rewrite H by (left; reflexivity). f_equal. apply IH. intros; apply H; right; assumption.
+Qed.
+
+Section Causality.
+  Context {R : Type} (O : Ops R).
+  Notation vec := (list R).
+  Notation mat := (list (list R)).
+
+  (* DiaM of ExcelFormerConv, column by column (column j carries its position) *)
+  Lemma diam_mha_colform : forall n H d lq lk lv (xs : mat), 0 < H ->
+    mha_row O H d (diam_post O n) lq lk lv xs =
+    map (fun p => flat_map (fun h => diam_head_out O n d lq lk lv h (snd p) (fst p) xs) (seq 0 H))
+        (combine xs (seq 0 n)).
+  Proof.
+    intros n H d lq lk lv xs HH. unfold mha_row, heads_split.
+    rewrite zipw_map, map_map, zipw_map.
+    transitivity (heads_merge (map (fun h => map (fun p => diam_head_out O n d lq lk lv h (snd p) (fst p) xs)
+                                                 (combine xs (seq 0 n))) (seq 0 H))).
+    - f_equal. apply map_ext. intros h. unfold diam_post, diam_mask.
+      rewrite !map_map. rewrite zipw_map2. unfold zipw at 1. rewrite !map_map.
+      apply map_ext. intros [xj j]. cbn [fst snd]. unfold diam_head_out, diam_mask_row, head_slice.
+      rewrite !map_map. reflexivity.
+    - apply (heads_merge_map (fun h p => diam_head_out O n d lq lk lv h (snd p) (fst p) xs)).
+      apply seq_nonempty; assumption.
+  Qed.
+
+  Lemma diam_mask_row_split : forall n i, i < n ->
+    diam_mask_row O n i = repeat (o0 O) (S i) ++ repeat (onegbig O) (n - S i).
+  Proof.
+    intros n i Hi. unfold diam_mask_row.
+    replace n with (S i + (n - S i)) at 1 by lia. rewrite seq_app, map_app. f_equal.
+    - rewrite (map_const_in _ (o0 O)); [rewrite seq_length; reflexivity|].
+      intros l Hl. apply in_seq in Hl. replace (l <=? i) with true; [reflexivity|].
+      symmetry. apply Nat.leb_le. lia.
+    - rewrite (map_const_in _ (onegbig O)); [rewrite seq_length; reflexivity|].
+      intros l Hl. apply in_seq in Hl. replace (l <=? i) with false; [reflexivity|].
+      symmetry. apply Nat.leb_gt. lia.
+  Qed.
+
+  Section WithZeroLaws.
+    (* what the causality theorem needs of the scalars: 0 is neutral for + and absorbing for * and /,
+       and H_mask_kills: a score with the -1e5 mask added has softmax numerator exactly 0 *)
+    Hypothesis add_0_l : forall x, oadd O (o0 O) x = x.
+    Hypothesis mul_0_l : forall x, omul O (o0 O) x = o0 O.
+    Hypothesis div_0_l : forall x, odiv O (o0 O) x = o0 O.
+    Hypothesis H_mask_kills : forall s, ofn O FExp (ofn O FScale (oadd O s (onegbig O))) = o0 O.
+
+    Lemma vsum_app_zeros : forall v k, vsum O (v ++ repeat (o0 O) k) = vsum O v.
+    Proof.
+      intros v k. unfold vsum. rewrite fold_right_app. f_equal.
+      induction k as [|k IH]; [reflexivity|]. cbn [repeat fold_right]. rewrite IH. apply add_0_l.
+    Qed.
+
+    Lemma vadd_zeros : forall d, vadd O (vzeros O d) (vzeros O d) = vzeros O d.
+    Proof.
+      induction d as [|d IH]; [reflexivity|]. unfold vadd, vzeros in *. cbn [repeat].
+      rewrite zipw_cons, IH, add_0_l. reflexivity.
+    Qed.
+
+    Lemma vecsum_app_zeros : forall d (T : mat) k, vecsum O d (T ++ repeat (vzeros O d) k) = vecsum O d T.
+    Proof.
+      intros d T k. unfold vecsum. rewrite fold_right_app. f_equal.
+      induction k as [|k IH]; [reflexivity|]. cbn [repeat fold_right]. rewrite IH. apply vadd_zeros.
+    Qed.
+
+    Lemma vscale_zero : forall u, vscale O (o0 O) u = vzeros O (length u).
+    Proof.
+      induction u as [|x u IH]; [reflexivity|]. unfold vscale, vzeros in *. cbn [map length repeat].
+      rewrite mul_0_l, IH. reflexivity.
+    Qed.
+
+    Lemma softmax_app_masked : forall (a : vec) (b : vec),
+      (forall x, In x b -> ofn O FExp x = o0 O) ->
+      softmax O (a ++ b) = softmax O a ++ repeat (o0 O) (length b).
+    Proof.
+      intros a b Hb. unfold softmax. rewrite map_app.
+      rewrite (map_const_in (ofn O FExp) (o0 O) b Hb). rewrite vsum_app_zeros, map_app. f_equal.
+      rewrite (map_const_in _ (o0 O)); [rewrite repeat_length; reflexivity|].
+      intros x Hx. apply repeat_spec in Hx. subst. apply div_0_l.
+    Qed.
+
+    Lemma head_slice_length : forall H d h (u : vec), h < H -> length u = H * d -> length (head_slice d h u) = d.
+    Proof.
+      intros H d h u Hh Hu. unfold head_slice. rewrite firstn_length, skipn_length, Hu.
+      apply Nat.min_l. nia.
+    Qed.
+
+    (* the masked attention of column i over all columns = the unmasked attention over the prefix *)
+    Lemma diam_head_out_prefix : forall n H d lq lk lv h i xj (pre suf : mat),
+      h < H -> (forall x, length (lv x) = H * d) ->
+      length pre = S i -> length (pre ++ suf) = n ->
+      diam_head_out O n d lq lk lv h i xj (pre ++ suf) = diam_head_prefix O d lq lk lv h xj pre.
+    Proof.
+      intros n H d lq lk lv h i xj pre suf Hh Hlv Hpre Hn.
+      assert (Hi : i < n) by (rewrite app_length in Hn; lia).
+      assert (Hsuf : length suf = n - S i) by (rewrite app_length in Hn; lia).
+      unfold diam_head_out, diam_head_prefix.
+      set (sc := fun xl => dot O (head_slice d h (lq xj)) (head_slice d h (lk xl))).
+      set (v := fun xl => head_slice d h (lv xl)).
+      rewrite (diam_mask_row_split n i Hi), !map_app.
+      rewrite zipw_app by (rewrite map_length, repeat_length; assumption).
+      rewrite !zipw_repeat_r by (rewrite map_length; lia). rewrite !map_map.
+      rewrite softmax_app_masked
+        by (intros x Hx; apply in_map_iff in Hx; destruct Hx as (xl & <- & _); apply H_mask_kills).
+      unfold lincomb. rewrite zipw_app by (unfold softmax; rewrite !map_length; reflexivity).
+      rewrite map_length, zipw_repeat_l by (rewrite map_length; lia). rewrite map_map.
+      rewrite (map_const_in (fun x => vscale O (o0 O) (v x)) (vzeros O d) suf).
+      - rewrite vecsum_app_zeros. reflexivity.
+      - intros xl _. rewrite vscale_zero. f_equal. apply (head_slice_length H); [assumption | apply Hlv].
+    Qed.
+
+    Theorem excel_conv_causal : forall n H d norm1 lq lk lv lout norm2 a1 a2 (row : mat) i,
+      0 < H -> (forall x, length (lv x) = H * d) -> length row = n -> i < n ->
+      nth_error (excel_conv_core_row O n H d norm1 lq lk lv lout norm2 a1 a2 row) i =
+      excel_col_prefix O H d norm1 lq lk lv lout norm2 a1 a2 (firstn (S i) row) i.
+    Proof.
+      intros n H d norm1 lq lk lv lout norm2 a1 a2 row i HH Hlv Hn Hi.
+      unfold excel_conv_core_row, excel_col_prefix.
+      rewrite <- firstn_map. set (xs := map norm1 row).
+      assert (Hxs : length xs = n) by (unfold xs; rewrite map_length; assumption).
+      rewrite nth_error_firstn' by lia.
+      destruct (nth_error xs i) as [xi|] eqn:Exi; [|apply nth_error_None in Exi; lia].
+      rewrite nth_error_zipw, nth_error_map, nth_error_zipw, Exi.
+      assert (Ed : nth_error (diam_row O n H d lq lk lv lout xs) i =
+                   Some (match lout with Some L => L (flat_map (fun h => diam_head_prefix O d lq lk lv h xi (firstn (S i) xs)) (seq 0 H))
+                                    | None => flat_map (fun h => diam_head_prefix O d lq lk lv h xi (firstn (S i) xs)) (seq 0 H) end)).
+      { unfold diam_row. rewrite (diam_mha_colform n H d lq lk lv xs HH).
+        assert (E : nth_error (map (fun p => flat_map (fun h => diam_head_out O n d lq lk lv h (snd p) (fst p) xs) (seq 0 H))
+                                   (combine xs (seq 0 n))) i =
+                    Some (flat_map (fun h => diam_head_prefix O d lq lk lv h xi (firstn (S i) xs)) (seq 0 H))).
+        { rewrite nth_error_map, nth_error_combine', Exi, nth_error_seq' by assumption.
+          cbn [option_map fst snd Nat.add]. f_equal. apply flat_map_ext'. intros h Hh. apply in_seq in Hh.
+          rewrite <- (firstn_skipn (S i) xs) at 1.
+          apply (diam_head_out_prefix n H d); [lia | assumption | rewrite firstn_length; lia |].
+          rewrite firstn_skipn. assumption. }
+        destruct lout; [rewrite nth_error_map, E|]; [reflexivity | exact E]. }
+      rewrite Ed. cbn [option_map]. reflexivity.
+    Qed.
+
+    (* the reading the property text gives: columns after i do not matter *)
+    Corollary excel_conv_suffix_independent : forall n H d norm1 lq lk lv lout norm2 a1 a2 (row row' : mat) i,
+      0 < H -> (forall x, length (lv x) = H * d) -> length row = n -> length row' = n -> i < n ->
+      firstn (S i) row = firstn (S i) row' ->
+      nth_error (excel_conv_core_row O n H d norm1 lq lk lv lout norm2 a1 a2 row) i =
+      nth_error (excel_conv_core_row O n H d norm1 lq lk lv lout norm2 a1 a2 row') i.
+    Proof.
+      intros. rewrite !excel_conv_causal by assumption. congruence.
+    Qed.
+  End WithZeroLaws.
+End Causality.
+
+(* ================================================================== *)
+(* 9. shapes: decoders reduce to [B, out]; Trompt keeps the prompt shape *)
+(* ================================================================== *)
+Section Shapes.
+  Context {R : Type} (O : Ops R).
+  Notation vec := (list R).
+  Notation mat := (list (list R)).
+  Notation t3 := (list (list (list R))).
+
+  Lemma transpose_length : forall {A} n (m : list (list A)), Forall (fun r => n <= length r) m ->
+    length (transpose n m) = n.
+  Proof.
+    intros A n m H. induction H as [|r m Hr _ IH]; cbn [transpose fold_right].
+    - apply repeat_length.
+    - unfold transpose in IH. rewrite zipw_length, IH. lia.
+  Qed.
+
+  Lemma concat_length_ones : forall {A} (l : list (list A)), Forall (fun v => length v = 1) l -> length (concat l) = length l.
+  Proof.
+    intros A l H. induction H as [|v l Hv _ IH]; [reflexivity|]. cbn [concat length]. rewrite app_length, Hv, IH. reflexivity.
+  Qed.
+
+  Lemma excel_decoder_row_length : forall Cin Cout lin_f lin_d (row : mat),
+    (forall v, length (lin_f v) = Cout) -> (forall v, length (lin_d v) = 1) ->
+    length (excel_decoder_row O Cin Cout lin_f lin_d row) = Cout.
+  Proof.
+    intros Cin Cout lin_f lin_d row Hf Hd. unfold excel_decoder_row.
+    rewrite concat_length_ones by (apply Forall_forall; intros v Hv; apply in_map_iff in Hv; destruct Hv as (u & <- & _); apply Hd).
+    rewrite map_length. apply transpose_length.
+    apply Forall_forall. intros r Hr. apply in_map_iff in Hr. destruct Hr as (u & <- & _).
+    unfold vfn. rewrite map_length, Hf. lia.
+  Qed.
+
+  (* ExcelFormerDecoder: [B, cols, C] -> [B, out] for every batch size B >= 0 *)
+  Theorem excel_decoder_shape : forall Cin Cout LinF lin_f LinD lin_d (X : t3),
+    acts_lastaxis LinF lin_f -> acts_lastaxis LinD lin_d ->
+    (forall v, length (lin_f v) = Cout) -> (forall v, length (lin_d v) = 1) ->
+    length (excel_decoder O Cin Cout LinF LinD X) = length X /\
+    Forall (fun r => length r = Cout) (excel_decoder O Cin Cout LinF LinD X).
+  Proof.
+    intros Cin Cout LinF lin_f LinD lin_d X HF HD Hf Hd.
+    rewrite (excel_decoder_rowwise O Cin Cout LinF lin_f LinD lin_d HF HD X). split; [apply map_length|].
+    apply Forall_forall. intros r Hr. apply in_map_iff in Hr. destruct Hr as (row & <- & _).
+    apply excel_decoder_row_length; assumption.
+  Qed.
+
+  (* TromptDecoder: accepted input gives [B, out] for every B >= 0; a shape mismatch is rejected *)
+  Theorem trompt_decoder_shape : forall P C out LinAttn lin_attn Mlp mlp (X : t3) Y,
+    acts_lastaxis LinAttn lin_attn -> acts_rowwise Mlp mlp -> (forall v, length (mlp v) = out) ->
+    trompt_decoder O P C LinAttn Mlp X = Some Y ->
+    length Y = length X /\ Forall (fun r => length r = out) Y.
+  Proof.
+    intros P C out LinAttn lin_attn Mlp mlp X Y HL HM Hm H. unfold trompt_decoder in H.
+    destruct (negb (shape3_ok P C X)); [discriminate|]. inversion H; subst. clear H.
+    rewrite HM. split.
+    - rewrite map_length, zipw_length, map_length, HL, map_length. apply Nat.min_id.
+    - apply Forall_forall. intros r Hr. apply in_map_iff in Hr. destruct Hr as (u & <- & _). apply Hm.
+  Qed.
+
+  Theorem trompt_decoder_rejects : forall P C LinAttn Mlp (X : t3),
+    shape3_ok P C X = false -> trompt_decoder O P C LinAttn Mlp X = None.
+  Proof. intros. unfold trompt_decoder. rewrite H. reflexivity. Qed.
+
+  Theorem trompt_conv_rejects : forall n C P ep ec w Lin GN (X Xp : t3),
+    shape3_ok n C X = false \/ length Xp <> length X \/ shape3_ok P C Xp = false ->
+    trompt_conv O n C P ep ec w Lin GN X Xp = None.
+  Proof.
+    intros n C P ep ec w Lin GN X Xp H. unfold trompt_conv.
+    destruct (shape3_ok n C X) eqn:E1; cbn [negb]; [|reflexivity].
+    destruct H as [H|[H|H]]; [discriminate| |].
+    - apply Nat.eqb_neq in H. rewrite H. reflexivity.
+    - rewrite H, andb_false_r. reflexivity.
+  Qed.
+
+  Lemma vadd_length : forall a b, length (vadd O a b) = Nat.min (length a) (length b).
+  Proof. intros. apply zipw_length. Qed.
+
+  Lemma vecsum_length : forall C (ts : mat), Forall (fun t => length t = C) ts -> length (vecsum O C ts) = C.
+  Proof.
+    intros C ts H. induction H as [|t ts Ht _ IH]; cbn [vecsum fold_right].
+    - apply repeat_length.
+    - unfold vecsum in IH. rewrite vadd_length, Ht, IH. apply Nat.min_id.
+  Qed.
+
+  Lemma Forall_zipw : forall {A B C0} (h : A -> B -> C0) (Q : C0 -> Prop) a b,
+    (forall x y, In x a -> In y b -> Q (h x y)) -> Forall Q (zipw h a b).
+  Proof.
+    intros A B C0 h Q a b H. apply Forall_forall. intros z Hz. unfold zipw in Hz.
+    apply in_map_iff in Hz. destruct Hz as ([x y] & <- & Hxy).
+    apply H; [eapply in_combine_l | eapply in_combine_r]; eassumption.
+  Qed.
+
+  Lemma shape2_ok_spec : forall {A} n c (m : list (list A)), shape2_ok n c m = true ->
+    length m = n /\ Forall (fun v => length v = c) m.
+  Proof.
+    intros A n c m H. unfold shape2_ok in H. apply andb_prop in H. destruct H as [H1 H2].
+    apply Nat.eqb_eq in H1. split; [assumption|]. apply Forall_forall. intros v Hv.
+    rewrite forallb_forall in H2. apply Nat.eqb_eq. apply H2. assumption.
+  Qed.
+
+  (* one row of TromptConv: accepted input gives new prompts of the SAME shape [P, C] *)
+  Theorem trompt_conv_row_shape : forall n C P (ep ec : mat) (w : vec) lin gn_r (x xp y : mat),
+    length ep = P -> length w = P ->
+    (forall z, length (gn_r z) = length z) ->
+    (forall z, Forall (fun zk => Forall (fun v => length v = C) zk) z ->
+               Forall (fun zk => Forall (fun v => length v = C) zk) (gn_r z)) ->
+    trompt_conv_row O n C P ep ec w lin gn_r x xp = Some y ->
+    length y = P /\ Forall (fun v => length v = C) y.
+  Proof.
+    intros n C P ep ec w lin gn_r x xp y Hep Hw Hgl Hgs H. unfold trompt_conv_row in H.
+    destruct (shape2_ok n C x) eqn:Ex; cbn [negb] in H; [|discriminate].
+    destruct (shape2_ok P C xp) eqn:Exp; cbn [negb] in H; [|discriminate].
+    injection H as <-.
+    destruct (shape2_ok_spec _ _ _ Ex) as [Hxn HxC]. destruct (shape2_ok_spec _ _ _ Exp) as [HxpP _].
+    split.
+    - rewrite !zipw_length, !map_length, !zipw_length, !map_length, !zipw_length, Hgl, map_length, repeat_length.
+      rewrite Hep, HxpP, Hw. lia.
+    - apply Forall_zipw. intros mp xpm _ Hx4. unfold lincomb. apply vecsum_length.
+      apply Forall_zipw. intros s v _ Hv. unfold vscale. rewrite map_length.
+      (* v is an entry of  group_norm(z)[p] + x : length C *)
+      unfold zipw in Hx4 at 1. apply in_map_iff in Hx4. destruct Hx4 as ([gz xr] & <- & Hp). cbn [fst snd] in Hv.
+      assert (Hgz : Forall (fun u => length u = C) gz).
+      { apply in_combine_l in Hp.
+        assert (HF : Forall (fun zk => Forall (fun v0 => length v0 = C) zk)
+                       (gn_r (map (fun wk => map (fun v0 => vfn O FRelu (map (fun s0 => omul O s0 wk) v0)) x) w))).
+        2: { rewrite Forall_forall in HF. apply HF. assumption. }
+        apply Hgs.
+        apply Forall_forall. intros zk Hzk. apply in_map_iff in Hzk. destruct Hzk as (wk & <- & _).
+        apply Forall_forall. intros u Hu. apply in_map_iff in Hu. destruct Hu as (v0 & <- & Hv0).
+        unfold vfn. rewrite !map_length. rewrite Forall_forall in HxC. apply HxC. assumption. }
+      assert (Hxr : xr = x) by (apply in_combine_r in Hp; apply repeat_spec in Hp; assumption). subst xr.
+      unfold zipw in Hv. apply in_map_iff in Hv. destruct Hv as ([u1 u2] & <- & Hu). cbn [fst snd].
+      rewrite vadd_length.
+      rewrite Forall_forall in Hgz, HxC.
+      rewrite (Hgz u1) by (eapply in_combine_l; eassumption).
+      rewrite (HxC u2) by (eapply in_combine_r; eassumption). apply Nat.min_id.
+  Qed.
+End Shapes.
+
+(* ================================================================== *)
+(* 10. batch-level corollaries                                          *)
+(* ================================================================== *)
+Lemma select_In : forall {A} idx (X X' : list A), select idx X = Some X' -> forall a, In a X' -> In a X.
+Proof.
+  induction idx as [|i idx IH]; intros X X' H a Ha; cbn [select] in H.
+  - inversion H; subst. destruct Ha.
+  - destruct (nth_error X i) as [x|] eqn:E; [|discriminate].
+    destruct (select idx X) as [xs|] eqn:E'; [|discriminate]. inversion H; subst.
+    destruct Ha as [<-|Ha]; [eapply nth_error_In; eassumption | eapply IH; eauto].
+Qed.
+
+Section BatchCorollaries.
+  Context {R : Type} (O : Ops R).
+  Notation vec := (list R).
+  Notation mat := (list (list R)).
+  Notation t3 := (list (list (list R))).
+
+  (* partial row-wise functions: scoring a sub-batch (subset / permutation / duplicates) of an accepted
+     batch is accepted and gives the corresponding outputs *)
+  Lemma rowwise_opt_select : forall {U T} (F : list U -> option (list T)) f, acts_rowwise_opt F f ->
+    forall idx X X' Y, F X = Some Y -> select idx X = Some X' ->
+    exists Y', F X' = Some Y' /\ select idx Y = Some Y'.
+  Proof.
+    intros U T F f H idx X X' Y HY HX.
+    destruct Y as [|y0 Y0] eqn:EY.
+    - (* empty output: empty batch *)
+      rewrite H in HY. apply opt_all_Some_length in HY. rewrite map_length in HY.
+      destruct X; [|discriminate]. destruct idx as [|i idx]; cbn [select] in HX.
+      + inversion HX; subst. exists []. rewrite H. split; reflexivity.
+      + destruct i; discriminate.
+    - rewrite <- EY in *. clear EY. rewrite H in HY.
+      destruct (opt_all_Some_inv y0 f X Y HY) as [-> Hall].
+      exists (map (fun a => unwrap y0 (f a)) X'). split.
+      + rewrite H. rewrite <- opt_all_map_Some. apply opt_all_map_ext. intros a Ha.
+        apply Hall. eapply select_In; eassumption.
+      + rewrite select_map, HX. reflexivity.
+  Qed.
+
+  Lemma rowwise_opt_length : forall {U T} (F : list U -> option (list T)) f, acts_rowwise_opt F f ->
+    forall X Y, F X = Some Y -> length Y = length X.
+  Proof. intros U T F f H X Y HY. rewrite H in HY. apply opt_all_Some_length in HY. rewrite map_length in HY. exact HY. Qed.
+
+  Lemma rowwise_opt_empty : forall {U T} (F : list U -> option (list T)) f, acts_rowwise_opt F f -> F [] = Some [].
+  Proof. intros U T F f H. rewrite H. reflexivity. Qed.
+
+  Lemma tab_conv_row_length : forall H d norm1 lq lk lv lout lin1 lin2 (row : mat), 0 < H ->
+    length (tab_conv_row O H d norm1 lq lk lv lout lin1 lin2 row) = length row.
+  Proof. intros. rewrite tab_conv_colform by assumption. rewrite !map_length. reflexivity. Qed.
+
+  (* conv(x[:, perm]) = conv(x)[:, perm] on a whole batch *)
+  Theorem tab_conv_equivariant : forall H d Norm1 norm1 LinQ lq LinK lk LinV lv LinOut lout Lin1 lin1 Lin2 lin2,
+    (forall a b, oadd O a b = oadd O b a) -> (forall a b c, oadd O a (oadd O b c) = oadd O (oadd O a b) c) ->
+    0 < H ->
+    acts_lastaxis Norm1 norm1 -> acts_lastaxis LinQ lq -> acts_lastaxis LinK lk -> acts_lastaxis LinV lv ->
+    acts_lastaxis LinOut lout -> acts_lastaxis Lin1 lin1 -> acts_lastaxis Lin2 lin2 ->
+    forall n p (X : t3), Forall (fun row => length row = n) X -> is_perm p n ->
+      tab_conv O H d Norm1 LinQ LinK LinV LinOut Lin1 Lin2 (map (take_cols p) X) =
+      map (take_cols p) (tab_conv O H d Norm1 LinQ LinK LinV LinOut Lin1 Lin2 X).
+  Proof.
+    intros H d Norm1 norm1 LinQ lq LinK lk LinV lv LinOut lout Lin1 lin1 Lin2 lin2 Hc Ha HH HN HQ HK HV HO H1 H2 n p X HX Hp.
+    rewrite !(tab_conv_rowwise O H d _ _ _ _ _ _ _ _ _ _ _ _ _ _ HH HN HQ HK HV HO H1 H2), !map_map.
+    apply map_ext_in. intros row Hrow. rewrite Forall_forall in HX.
+    apply tab_conv_row_equivariant; auto. rewrite (HX row Hrow). assumption.
+  Qed.
+End BatchCorollaries.
